@@ -18,6 +18,7 @@ from ..common import Run, check_exc, ensure_repo, pmap, seed
 from ..onecomp import run_comp, tube_surface
 
 ensure_repo()
+import openmdao.api as om  # noqa: E402
 G = 9.80665
 
 
@@ -227,6 +228,23 @@ def _random_job(k):
     return {"k": k, "bad": bad, "case": {"nsurf": ns, "user_sref": user, "internally_connect_fuelburn": icf}}
 
 
+def _atmos_history_job(k):
+    """Component-level histories of the atmosphere group (OASLifecycle points q / z at component granularity): every component
+    evaluated at one flight condition and then, on the same instance, with ONE input changed or zeroed, vs a fresh instance."""
+    from openaerostruct.common.atmos_group import AtmosGroup
+
+    from .. import compzero
+
+    rng = np.random.default_rng(seed() * 131 + k)
+    prob = om.Problem(reports=False)
+    prob.model.add_subsystem("a", AtmosGroup(), promotes=["*"])
+    prob.model.set_input_defaults("altitude", float(rng.uniform(2000, 50000)), units="ft")
+    prob.model.set_input_defaults("Mach_number", float(rng.uniform(0.3, 0.85)))
+    prob.setup()
+    prob.run_model()
+    return {"k": k, "cases": compzero.component_cases(prob)}
+
+
 def _units_job(k):
     """OASLaws.Reexpress on the aerostructural / structural models: the same physical flight condition, mission data,
     point masses, thrusts and loads handed over in another unit system (knots, radians, slug/ft^3, lbm, lbf, 1/h, feet)
@@ -277,6 +295,11 @@ def run(tier, only=None):
         R.case(["random", r["k"]], True, sample=r["case"] if r["k"] % 29 == 0 else None, section="random")
         for sig in r["bad"]:
             R.violation(sig, {"k": r["k"], "case": r["case"]})
+    for r in check_exc(pmap(_atmos_history_job, range(4 if tier == "quick" else 24))):
+        for cls_, what, verdict, detail in r["cases"]:
+            R.case(["atmos_history", r["k"], cls_, what], verdict != "skipped", section="atmos_history")
+            if verdict in ("deviates", "exception_only_after_history"):
+                R.violation("atmos_history:%s:%s" % (cls_, what), {"k": r["k"], "component": cls_, "changed_input": what, "detail": detail})
     for r in check_exc(pmap(_units_job, range(12 if tier == "quick" else 120))):
         R.case(["units", r["k"]], True, sample=r["case"] if r["k"] % 5 == 0 else None, section="units")
         for sig, e in r["bad"]:
